@@ -1553,7 +1553,7 @@ Notes:
     import mystic.symbolic as ms #XXX: randomness due to sympy?
     cons = ms.symbolic_bounds(min, max) #XXX: how clipping with symbolic?
     if not cons.strip(): return lambda x: x # no finite bounds, nothing to impose
-    cons = ms.generate_constraint(ms.generate_solvers(ms.simplify(cons))) #join?
+    cons = ms.generate_constraint(ms.generate_solvers(cons)) #NOTE: is in solved form
     return cons
 
 
